@@ -171,6 +171,18 @@ class ControlFlowTransformer(converter.Base):
       continue
     return frozenset(basic_scope_vars)
 
+  def _create_loop_local_assigns(self, modified, loop_vars):
+    # Symbols that the loop body binds, but which are not part of the loop
+    # state, are local to the generated body function and start out unbound in
+    # every iteration, even if an earlier iteration (or the code before the
+    # loop) has bound them. Statements nested in the body may list them in
+    # their own state, which must be readable from the start.
+    fn_scope = self.state[_Function].scope
+    local_vars = sorted(
+        s for s in modified - set(loop_vars) - fn_scope.globals -
+        fn_scope.nonlocals if not s.is_composite())
+    return self._create_undefined_assigns(local_vars)
+
   def _get_block_composite_vars(self, modified, live_in):
     # The scope variables corresponding to composite symbols (e.g. `self.x`).
     composite_scope_vars = []
@@ -295,6 +307,8 @@ class ControlFlowTransformer(converter.Base):
     loop_vars, undefined, _ = self._get_block_vars(node, body_scope.bound)
 
     undefined_assigns = self._create_undefined_assigns(undefined)
+    local_assigns = self._create_loop_local_assigns(
+        body_scope.bound, loop_vars)
 
     nonlocal_declarations = self._create_nonlocal_declarations(loop_vars)
 
@@ -310,6 +324,7 @@ class ControlFlowTransformer(converter.Base):
       state_functions
       def body_name():
         nonlocal_declarations
+        local_assigns
         body
       def test_name():
         return test
@@ -326,6 +341,7 @@ class ControlFlowTransformer(converter.Base):
         template,
         body=node.body,
         body_name=self.ctx.namer.new_symbol('loop_body', reserved),
+        local_assigns=local_assigns,
         nonlocal_declarations=nonlocal_declarations,
         opts=opts,
         state_functions=state_functions,
@@ -347,6 +363,8 @@ class ControlFlowTransformer(converter.Base):
         node, body_scope.bound | iter_scope.bound)
 
     undefined_assigns = self._create_undefined_assigns(undefined)
+    local_assigns = self._create_loop_local_assigns(
+        body_scope.bound - iter_scope.bound, loop_vars)
 
     nonlocal_declarations = self._create_nonlocal_declarations(loop_vars)
 
@@ -394,6 +412,7 @@ class ControlFlowTransformer(converter.Base):
       state_functions
       def body_name(iterate_arg_name):
         nonlocal_declarations
+        local_assigns
         iterate_expansion
         body
       extra_test_function
@@ -416,6 +435,7 @@ class ControlFlowTransformer(converter.Base):
         iterate_arg_name=iterate_arg_name,
         iterate_expansion=iterate_expansion,
         iterated=node.iter,
+        local_assigns=local_assigns,
         nonlocal_declarations=nonlocal_declarations,
         opts=opts,
         symbol_names=tuple(ast.Constant(str(s)) for s in loop_vars),
